@@ -335,15 +335,46 @@ func runC17(c *Ctx, w *World, r *Report) {
 	{
 		bad := ""
 		// recursive calls
-		var rec *ssa.Call
+		// the call inside the boundary loop, and (alternative closing form) one trailing call dfs(s, e) after the loop
+		// instead of appending e to the list
+		var rec, trail *ssa.Call
 		eachInstr(dfs, func(ins ssa.Instruction) {
 			if call, ok := ins.(*ssa.Call); ok && isCellLoad(call.Common().Value, "dfs") {
+				if len(call.Common().Args) == 2 && stripConv(call.Common().Args[1]) == eP && trail == nil {
+					trail = call
+					return
+				}
 				if rec != nil {
 					bad = "more than one recursive call site"
 				}
 				rec = call
 			}
 		})
+		if trail != nil && rec != nil && bad == "" {
+			// it continues where the loop stopped (same running start) and is reached whenever the loop is left
+			if stripConv(trail.Common().Args[0]) != stripConv(rec.Common().Args[0]) {
+				bad = "the closing call dfs(.., e) does not start at the last collected boundary"
+			} else if inSomeLoop(trail.Block()) != nil {
+				bad = "the closing call dfs(.., e) is inside a loop"
+			} else {
+				hdr := inSomeLoop(rec.Block())
+				extra := 0
+				if hdr != nil {
+					base := map[ssa.Value]bool{}
+					for _, c := range fa.Conds(hdr) {
+						base[c.V] = true
+					}
+					for _, c := range fa.Conds(trail.Block()) {
+						if !base[c.V] && (c.If == nil || c.If.Block() != hdr) {
+							extra++
+						}
+					}
+				}
+				if hdr == nil || extra > 0 {
+					bad = "the closing call dfs(.., e) is not reached on every way out of the boundary loop"
+				}
+			}
+		}
 		if rec == nil {
 			bad = "no recursive call"
 		} else {
@@ -377,7 +408,14 @@ func runC17(c *Ctx, w *World, r *Report) {
 				}
 				// the list iterated ends with e
 				lastApp, ok := cont.(*ssa.Call)
-				if !ok {
+				if trail != nil {
+					// closed by the trailing call; the list itself must then not end with e as well
+					if ok {
+						if vals := appendedValues(lastApp); len(vals) == 1 && stripConv(vals[0]) == eP {
+							bad = "the final boundary e is both appended to the list and visited by a closing call: the last range is visited twice"
+						}
+					}
+				} else if !ok {
 					bad = "the boundary list iterated is not closed with the final boundary e"
 				} else {
 					vals := appendedValues(lastApp)
